@@ -247,6 +247,12 @@ REGRESSIONS = [
     {"chain": ["get", "unset", "shutdown"], "vms": ["vm2", "vm3"], "restrs": {"vm2": "Win7", "vm3": ""}, "nets": "net1 net5",
      "fail": {"step": 0, "status": "FAIL"}},
     {"chain": ["boot", "check"], "vms": ["vm1"], "restrs": {}, "nets": "net1", "raise": 0},
+    # a raising create/clean/collect step must not leave its temporary parameters behind for the later steps
+    {"chain": ["collect", "check"], "vms": ["vm1"], "restrs": {}, "nets": "net1", "raise": 0,
+     "extra": {"get_state_images": "customize"}},
+    {"chain": ["boot", "boot", "check", "boot"], "vms": ["vm1"], "restrs": {}, "nets": "net1 net2"},
+    {"chain": ["unset"], "vms": ["vm1"], "restrs": {}, "nets": "net1", "extra": {"unset_mode": "ri"}},
+    {"chain": ["boot", "check"], "vms": ["vm1"], "restrs": {}, "nets": "net1", "raise": 0, "raise_type": "TimeoutError"},
 ]
 
 
